@@ -70,6 +70,12 @@ func (f *Fosite) NewPushedAuthorizeRequest(ctx context.Context, r *http.Request)
 		return fr, err
 	}
 
+	// The request has been validated (and will be stored) for the client named by the "client_id" parameter:
+	// that must be the client that authenticated.
+	if fr.GetClient().GetID() != client.GetID() {
+		return fr, errorsx.WithStack(ErrInvalidRequest.WithHint("The 'client_id' parameter does not match the authenticated OAuth 2.0 Client."))
+	}
+
 	if fr.GetRequestedScopes().Has("openid") && r.Form.Get("redirect_uri") == "" {
 		return fr, errorsx.WithStack(ErrInvalidRequest.WithHint("Query parameter 'redirect_uri' is required when performing an OpenID Connect flow."))
 	}
